@@ -97,6 +97,10 @@ def scenarios():
         SC("same-keep-cold-store+transient-failure@%d" % kf, [], [scen.act_with_fault(k("/c7/x", "s_text"), kf), k("/c7/x", "s_text")], [[T], [T]], {("/c7/x", "data"): [T]},
            [(k("/c7/x", "s_text"), [T]), (ld("/c7/x"), [T])], may_fail=(0,)) for kf in range(1, 34)
     ] + [
+        # both processes register the same user file codec for dict results before they keep; one of them is a session that
+        # had kept a dict result before registering it: blob and metadata written by the two must still belong together
+        SC("same-keep-user-codec-registered-late-in-one-process", [], [scen.act_keep_user_codec("/c7/u", "s_dict", earlier="s_dict_earlier"), scen.act_keep_user_codec("/c7/u", "s_dict")], [[E["s_dict"]], [E["s_dict"]]], {},
+           [(scen.act_load_user_codec("/c7/u"), [E["s_dict"]]), (scen.act_keep_user_codec("/c7/u", "s_dict"), [E["s_dict"]]), (scen.act_load_user_codec("/c7/earlier"), [E["s_dict_earlier"]])]),
         SC("nested-eval-cold-twice", [], [scen.act_eval_top(), scen.act_eval_top()], [[E["n_top"]], [E["n_top"]]], nested_final, [(scen.act_eval_top(), [E["n_top"]])]),
     ]
 
